@@ -1,21 +1,19 @@
 #!/bin/bash
 # Robustness test of the checks against a BENIGN change: a comment line is prepended to every Rust source file of the
-# program crates (all `<impl at file:line>` names shift, behaviour identical). Every quick check must still exit 0.
-# Runs on a scratch worktree, with scratch MIR and evidence dirs (the committed evidence is not touched). Removes everything afterwards.
+# program crates (all `<impl at file:line>` names in the MIR shift, behaviour identical). Every quick check must still exit 0.
+# Runs through tools/run_seed_scratch.sh (scratch worktree, own MIR / replay targets and evidence dir; /repo and the committed evidence untouched).
+# usage: robustness_shift.sh [Cxx ...]      (SEEDSLOT selects the scratch tree, default 2)
 set -u
-WT=/tmp/wt_shift; OUT=/tmp/shift_out
-git -C /repo worktree remove --force $WT 2>/dev/null; rm -rf $OUT; mkdir -p $OUT/evidence $OUT/mir
+export SEEDSLOT=${SEEDSLOT:-2}
+WT=/tmp/wt_shift_src; P=/verif/.cache/shift.diff
+git -C /repo worktree remove --force $WT 2>/dev/null
 git -C /repo worktree add -q --detach $WT HEAD || exit 2
 for f in $(cd $WT && find programs/marginfi/src type-crate/src programs/kamino-mocks/src programs/solend-mocks/src programs/drift-mocks/src -name '*.rs'); do
   sed -i '1i // benign edit: line shift' $WT/$f
 done
-export VERIF_REPO=$WT VERIF_MIRDIR=$OUT/mir VERIF_EVIDENCE_DIR=$OUT/evidence
-rc=0
-for p in ${@:-C01 C02 C03 C04 C05 C06 C07 C08 C09 C10 C11 C12 C13 C14 C15 C16 C17 C18 C19 C20}; do
-  (cd /verif && ./check $p --tier quick > $OUT/$p.log 2>&1); e=$?
-  echo "shift $p exit=$e $(grep -c '^VIOLATION' $OUT/$p.log) viol; $(grep -E '^\[C..\] tier' $OUT/$p.log | cut -c1-110)"
-  [ $e -ne 0 ] && rc=1
-done
+git -C $WT diff > $P
 git -C /repo worktree remove --force $WT; git -C /repo worktree prune
-echo "robustness_shift: rc=$rc (logs in $OUT)"
-exit $rc
+out=$(/verif/tools/run_seed_scratch.sh $P ${@:-C01 C02 C03 C04 C05 C06 C07 C08 C09 C10 C11 C12 C13 C14 C15 C16 C17 C18 C19 C20})
+echo "$out" | grep '^check '
+if echo "$out" | grep '^check ' | grep -qv 'exit=0 '; then echo "robustness_shift: FAILED"; exit 1; fi
+echo "robustness_shift: every check exit 0"
